@@ -365,6 +365,13 @@ class ThreadingApplication(Application):
                 result_code=constants.E_RESULT_CODE_DIAMETER_UNABLE_TO_COMPLY)
         if answer is not None:
             self._resp_msg_queue.put(answer)
+        else:
+            # nothing to hand over to the response consumer, which would
+            # otherwise free the slot that was taken for this request
+            try:
+                self._thread_slots.get(block=False)
+            except queue.Empty:
+                pass
 
     def handle_request(self, message: Message) -> Message | None:
         """Called by diameter node every time a request message is received.
